@@ -67,17 +67,16 @@ def check_lth(run, pkg, weighted):
     ev = st[0]
     loc = loc_of(it, ev)
     Lf, Li = it.loops[ev.loops[0]], it.loops[ev.loops[1]]
-    okf = Lf.iter == ("call", "builtins.enumerate", (SNAPS,), ())
+    okf = eqv(Lf.iter, ("call", "builtins.enumerate", (SNAPS,), ()))
     n, snap, i = ("elem", Lf.target, 0), ("elem", Lf.target, 1), Li.target
-    run.ob("R-LOOPDOM", fq, f"{v}:frames", okf, "every frame is processed with its index", show(Lf.iter)[:60], witness=None if okf else "frames skipped", loc=fi.loc(Lf.node))
-    okp = Li.iter == ("call", "builtins.range", (("attr", snap, "nparticle"),), ())
-    run.ob("R-LOOPDOM", fq, f"{v}:particles", okp, "every particle gets a value", show(Li.iter)[:60], witness=None if okp else "particles skipped", loc=fi.loc(Li.node))
+    run.ob("R-LOOPDOM", fq, f"{v}:frames", okf, "every frame is processed with its index", show(Lf.iter)[:60], witness=None if okf else "frames skipped", loc=fi.loc(Lf.node), sound=True)
+    okp = eqv(Li.iter, ("call", "builtins.range", (("attr", snap, "nparticle"),), ()))
+    run.ob("R-LOOPDOM", fq, f"{v}:particles", okp, "every particle gets a value", show(Li.iter)[:60], witness=None if okp else "particles skipped", loc=fi.loc(Li.node), sound=True)
     R = ev.data["target"][1]
-    okslot = ev.data["target"][2] == ("tuple", (n, i)) and ev.data["op"] is None
-    run.ob("R-IDX", fq, f"{v}:slot", okslot, "the value of particle i in frame n is stored at [n, i]", show(ev.data["target"][2])[:40], witness=None if okslot else "values stored at another frame/particle", loc=loc)
-    oksh = R[0] == "call" and R[1] == "numpy.zeros" and R[2] and R[2][0] == ("tuple", (("attr", ("attr", SELF, "snapshots"), "nsnapshots"), ("attr", SELF, "nparticle"))) and \
-        kw(R, "dtype") in (("mod", "numpy.complex128"), ("builtin", "complex"))
-    run.ob("R-ALG", fq, f"{v}:shape", oksh, "results are complex zeros of shape (nsnapshots, nparticle)", show(R)[:80], witness=None if oksh else "real dtype drops the phase / wrong shape", loc=loc)
+    okslot = tri_lazy(lambda: eqv(ev.data["target"][2], ("tuple", (n, i))), lambda: (True if (ev.data["op"] is None) else None))
+    run.ob("R-IDX", fq, f"{v}:slot", okslot, "the value of particle i in frame n is stored at [n, i]", show(ev.data["target"][2])[:40], witness=None if okslot else "values stored at another frame/particle", loc=loc, sound=True)
+    oksh = tri_lazy(lambda: (True if (R[0] == "call") else None), lambda: (True if (R[1] == "numpy.zeros") else None), lambda: (True if (R[2]) else None), lambda: eqv(R[2][0], ("tuple", (("attr", ("attr", SELF, "snapshots"), "nsnapshots"), ("attr", SELF, "nparticle")))), lambda: eqv(kw(R, "dtype"), ("mod", "numpy.complex128"), ("builtin", "complex")))
+    run.ob("R-ALG", fq, f"{v}:shape", oksh, "results are complex zeros of shape (nsnapshots, nparticle)", show(R)[:80], witness=None if oksh else "real dtype drops the phase / wrong shape", loc=loc, sound=True)
     okret = len(it.returns) == 1 and it.returns[0].data["value"] == R
     run.ob("R-ALG", fq, f"{v}:return", okret, "the filled array is returned", "", witness=None if okret else "another array returned", loc=fi.loc())
     rd = [e for e in calls(it, READER) if set(e.loops) == {Lf.id}]
@@ -155,10 +154,10 @@ def check_lth(run, pkg, weighted):
         rev = bv["snap"] == snap and is_nbr_slice(bv["right"], NL, i) and bv["left"] == i
         run.ob("R-PBC", fq, f"{v}:bond", okb, "bond vectors are positions[neighbours of i (columns 1..cn_i)] - positions[i] within the frame", f"[{show(bv['left'])[:60]}] - [{show(bv['right'])[:30]}]",
                witness=None if okb else ("centre - neighbour: psi_l changes sign for odd l" if rev else "bond vectors do not join i to its listed neighbours"), loc=loc)
-        okh = bv["H"] == ("attr", snap, "hmatrix")
-        run.ob("R-PBC", fq, f"{v}:cell", okh, "minimum image uses the frame's cell", show(bv["H"])[:50], witness=None if okh else "cell of another frame", loc=loc)
-        okm = bv["ppp"] == ("attr", SELF, "ppp")
-        run.ob("R-PBC", fq, f"{v}:mask", okm, "the instance's periodicity mask is forwarded", show(bv["ppp"])[:40] if bv["ppp"] else "default", witness=None if okm else "mask dropped", loc=loc)
+        okh = eqv(bv["H"], ("attr", snap, "hmatrix"))
+        run.ob("R-PBC", fq, f"{v}:cell", okh, "minimum image uses the frame's cell", show(bv["H"])[:50], witness=None if okh else "cell of another frame", loc=loc, sound=True)
+        okm = eqv(bv["ppp"], ("attr", SELF, "ppp"))
+        run.ob("R-PBC", fq, f"{v}:mask", okm, "the instance's periodicity mask is forwarded", show(bv["ppp"])[:40] if bv["ppp"] else "default", witness=None if okm else "mask dropped", loc=loc, sound=True)
     if not weighted:
         ok = red == "mean" and wfac is None
         run.ob("R-ALG", fq, "plain:mean", ok, "unweighted value = mean of exp(i l theta) over the cn_i bonds (so |psi| <= 1)", f"{red} of {'weighted' if wfac else 'plain'} kernel",
@@ -174,12 +173,11 @@ def check_lth(run, pkg, weighted):
         wfac = ("bin", "/", wfac, post_den)        # (sum w k) / D == sum (w / D) k for a scalar D
     if wfac is not None and wfac[0] == "bin" and wfac[1] == "/":
         w, den = wfac[2], wfac[3]
-        okden = den in (("call", ".sum", (("call", "numpy.abs", (w,), ()),), ()), ("call", "numpy.sum", (("call", "numpy.abs", (w,), ()),), ()),
-                        ("call", ".sum", (("call", "numpy.absolute", (w,), ()),), ()))
+        okden = eqv(den, ("call", ".sum", (("call", "numpy.abs", (w,), ()),), ()), ("call", "numpy.sum", (("call", "numpy.abs", (w,), ()),), ()), ("call", ".sum", (("call", "numpy.absolute", (w,), ()),), ()))
         plain_sum = den in (("call", ".sum", (w,), ()), ("call", "numpy.sum", (w,), ()), ("call", "numpy.abs", (("call", ".sum", (w,), ()),), ()),
                             ("call", "builtins.abs", (("call", ".sum", (w,), ()),), ()), ("call", "numpy.abs", (("call", "numpy.sum", (w,), ()),), ()))
         run.ob("R-ALG", fq, "weighted:normalised", okden, "weights are divided by the sum of their absolute values (|psi| <= 1 also with negative weights)", show(den)[:80],
-               witness=None if okden else ("weights 1, -1: division by zero / |psi| > 1" if plain_sum else "weights not normalised by sum |w|"), loc=loc)
+               witness=None if okden else ("weights 1, -1: division by zero / |psi| > 1" if plain_sum else "weights not normalised by sum |w|"), loc=loc, sound=True)
         okal = Wt is not None and is_nbr_slice_of(w, Wt, NL, i)
         run.ob("R-ALIGN", fq, "weighted:alignment", okal, "bond k of particle i is weighted with column k + 1 of row i of the weight table (same slice 1..cn_i as the neighbours)", show(w)[:100],
                witness=None if okal else "weights shifted by one bond / count column used as a weight / weights of another particle", loc=loc)
@@ -239,15 +237,15 @@ def check_time_average(run, pkg):
             return k
         common = lambda k: k.get("snapshots") == ("attr", SELF, "snapshots") and k.get("time_period") == ("sym", "time_period") and k.get("dt") == ("sym", "dt")
         if cplx:
-            ok = len(cs) == 1 and common(args(cs[0])) and args(cs[0]).get("input_property") == PHI
-            run.ob("R-ALG", fq, f"{tag}:input", ok, "the complex order parameter itself is window-averaged (same trajectory, period, dt)", f"{len(cs)} calls", witness=None if ok else "another quantity averaged", loc=fi.loc())
-            okr = ok and ret == ("tuple", (("elem", cs[0].data["result"], 0), ("elem", cs[0].data["result"], 1)))
-            run.ob("R-ALG", fq, f"{tag}:return", bool(okr), "returns (averaged values, middle frame ids) of that call", show(ret)[:80] if ret else "?", witness=None if okr else "return differs", loc=fi.loc())
+            ok = tri_lazy(lambda: (True if (len(cs) == 1) else None), lambda: (True if (common(args(cs[0]))) else None), lambda: eqv(args(cs[0]).get("input_property"), PHI))
+            run.ob("R-ALG", fq, f"{tag}:input", ok, "the complex order parameter itself is window-averaged (same trajectory, period, dt)", f"{len(cs)} calls", witness=None if ok else "another quantity averaged", loc=fi.loc(), sound=True)
+            okr = tri_lazy(lambda: (True if (ok) else None), lambda: eqv(ret, ("tuple", (("elem", cs[0].data["result"], 0), ("elem", cs[0].data["result"], 1)))))
+            run.ob("R-ALG", fq, f"{tag}:return", bool(okr), "returns (averaged values, middle frame ids) of that call", show(ret)[:80] if ret else "?", witness=None if okr else "return differs", loc=fi.loc(), sound=True)
         else:
             ok = len(cs) == 2 and all(common(args(e)) for e in cs)
             ins = [args(e).get("input_property") for e in cs] if ok else []
-            okin = ok and ins[0] in (("call", "numpy.abs", (PHI,), ()), ("call", "numpy.absolute", (PHI,), ())) and ins[1] == ("call", "numpy.angle", (PHI,), ())
-            run.ob("R-ALG", fq, f"{tag}:input", bool(okin), "modulus |psi| and phase arg(psi) are window-averaged separately", ", ".join(show(x)[:40] for x in ins), witness=None if okin else "modulus/phase inputs wrong", loc=fi.loc())
+            okin = tri_lazy(lambda: (True if (ok) else None), lambda: eqv(ins[0], ("call", "numpy.abs", (PHI,), ()), ("call", "numpy.absolute", (PHI,), ())), lambda: eqv(ins[1], ("call", "numpy.angle", (PHI,), ())))
+            run.ob("R-ALG", fq, f"{tag}:input", bool(okin), "modulus |psi| and phase arg(psi) are window-averaged separately", ", ".join(show(x)[:40] for x in ins), witness=None if okin else "modulus/phase inputs wrong", loc=fi.loc(), sound=True)
             if okin and ret is not None and ret[0] == "tuple" and len(ret[1]) == 2:
                 mod, ph = ("elem", cs[0].data["result"], 0), ("elem", cs[1].data["result"], 0)
                 m, p = sp.symbols("m p", real=True)
@@ -259,8 +257,8 @@ def check_time_average(run, pkg):
                         return p
                     return None
                 check_algebra(run, "R-ALG", it, f"{tag}:combine", "result = <|psi|> exp(i <arg psi>)", ret[1][0], m * sp.exp(sp.I * p), at, fi.loc())
-                okid = ret[1][1] in (("elem", cs[0].data["result"], 1), ("elem", cs[1].data["result"], 1))
-                run.ob("R-ALG", fq, f"{tag}:ids", okid, "the middle frame ids of the windows are returned", show(ret[1][1])[:60], witness=None if okid else "ids missing", loc=fi.loc())
+                okid = eqv(ret[1][1], ("elem", cs[0].data["result"], 1), ("elem", cs[1].data["result"], 1))
+                run.ob("R-ALG", fq, f"{tag}:ids", okid, "the middle frame ids of the windows are returned", show(ret[1][1])[:60], witness=None if okid else "ids missing", loc=fi.loc(), sound=True)
         sv = [e for e in it.events if e.kind == "call" and e.data["call"][1] == "numpy.save"]
         oks = all(ret is not None and ret[0] == "tuple" and e.data["call"][2][1] == ret[1][0] and e.data["call"][2][0] == ("sym", "outputfile") for e in sv)
         run.ob("R-SAVE", fq, f"{tag}:save", oks, "the file holds the returned averaged values", f"{len(sv)} saves", witness=None if oks else "file differs from the returned values", loc=fi.loc())
@@ -275,18 +273,18 @@ def check_corr(run, pkg):
         raise AnalysisError(f"{fq}: expected one conditional_gr call per frame")
     c = cg[0].data["call"]
     L = it.loops[cg[0].loops[0]]
-    okf = L.iter == ("call", "builtins.enumerate", (SNAPS,), ())
+    okf = eqv(L.iter, ("call", "builtins.enumerate", (SNAPS,), ()))
     n, snap = ("elem", L.target, 0), ("elem", L.target, 1)
     k = dict(c[3])
     for p_, a_ in zip(pkg.func("static.gr.conditional_gr").params, c[2]):
         k[p_] = a_
-    ok = okf and k.get("snapshot") == snap and k.get("condition") == ("sub", PHI, n) and k.get("conditiontype", NONE) == NONE and k.get("ppp") == ("attr", SELF, "ppp") and k.get("rdelta") == ("sym", "rdelta")
+    ok = tri_lazy(lambda: (True if (okf) else None), lambda: (True if (k.get("snapshot") == snap) else None), lambda: eqv(k.get("condition"), ("sub", PHI, n)), lambda: eqv(k.get("conditiontype", NONE), NONE), lambda: eqv(k.get("ppp"), ("attr", SELF, "ppp")), lambda: eqv(k.get("rdelta"), ("sym", "rdelta")))
     run.ob("R-ALIGN", fq, "spatial", ok, "g_l(r) of frame n = conditional_gr(frame n, psi of frame n, scalar (complex) kind, instance mask, rdelta)", ", ".join(f"{a}={show(b)[:30]}" for a, b in k.items()),
-           witness=None if ok else "psi of another frame / vector kind / mask dropped", loc=loc_of(it, cg[0]))
+           witness=None if ok else "psi of another frame / vector kind / mask dropped", loc=loc_of(it, cg[0]), sound=True)
     aug = [e for e in it.events if e.kind == "aug" and e.data["op"] == "+" and e.data["value"] == cg[0].data["result"]]
     div = [e for e in it.events if e.kind == "aug" and e.data["op"] == "/" and not e.loops]
-    oka = len(aug) == 1 and aug[0].data["old"][0] == "mu" and aug[0].data["old"][3] == C(0) and len(div) == 1 and div[0].data["value"] == ("attr", ("attr", SELF, "snapshots"), "nsnapshots")
-    run.ob("R-ALG", fq, "spatial-average", oka, "frames are summed from 0 and divided by the number of frames", f"{len(aug)} sums, {len(div)} divisions", witness=None if oka else "not a frame average", loc=fi.loc())
+    oka = tri_lazy(lambda: (True if (len(aug) == 1) else None), lambda: (True if (aug[0].data["old"][0] == "mu") else None), lambda: eqv(aug[0].data["old"][3], C(0)), lambda: (True if (len(div) == 1) else None), lambda: eqv(div[0].data["value"], ("attr", ("attr", SELF, "snapshots"), "nsnapshots")))
+    run.ob("R-ALG", fq, "spatial-average", oka, "frames are summed from 0 and divided by the number of frames", f"{len(aug)} sums, {len(div)} divisions", witness=None if oka else "not a frame average", loc=fi.loc(), sound=True)
     it = interp(pkg, f"{CLS}.time_corr")
     fi = it.fi
     fq = short(fi.qual)
@@ -296,7 +294,7 @@ def check_corr(run, pkg):
     k = dict(tc[0].data["call"][3])
     for p_, a_ in zip(pkg.func("dynamic.time_corr.time_correlation").params, tc[0].data["call"][2]):
         k[p_] = a_
-    ok = k.get("snapshots") == ("attr", SELF, "snapshots") and k.get("condition") == PHI and k.get("dt") == ("sym", "dt") and k.get("outputfile") == ("sym", "outputfile")
+    ok = tri_lazy(lambda: eqv(k.get("snapshots"), ("attr", SELF, "snapshots")), lambda: eqv(k.get("condition"), PHI), lambda: eqv(k.get("dt"), ("sym", "dt")), lambda: eqv(k.get("outputfile"), ("sym", "outputfile")))
     okr = len(it.returns) == 1 and it.returns[0].data["value"] == tc[0].data["result"]
     run.ob("R-ALIGN", fq, "time", ok and okr, "time correlation of psi over the instance's trajectory with the caller's dt and output file, returned unchanged", ", ".join(f"{a}={show(b)[:30]}" for a, b in k.items()),
-           witness=None if ok and okr else "other quantity / dt ignored / result altered", loc=loc_of(it, tc[0]))
+           witness=None if ok and okr else "other quantity / dt ignored / result altered", loc=loc_of(it, tc[0]), sound=True)
